@@ -112,16 +112,17 @@ def tlc(module, cfg=None, wd=None, workers=None, env=None, simulate=None, depth=
     log("TLC %s: %.1fs rc=%d" % (os.path.basename(mpath), time.time() - t, p.returncode))
     # TLC exit codes: 0 ok, 10 assumption, 11 deadlock, 12 safety violation, 13 liveness violation; the rest are errors
     if p.returncode not in (0, 11, 12, 13):
-        log(out[-5000:])
+        i = out.find("Semantic errors")
+        log(out[i:i + 1500] if i >= 0 else out[-1500:])
         raise ToolError("TLC failed on %s (exit %d)" % (module, p.returncode))
     return out
 
 
 def tlc_stats(out):
     """(generated, distinct) from a model-checking run; for -simulate the number of states checked."""
-    m = re.search(r"(\d+) states generated, (\d+) distinct states found", out)
-    if m:
-        return int(m.group(1)), int(m.group(2))
+    ms = re.findall(r"^(\d+) states generated, (\d+) distinct states found", out, re.M)
+    if ms:
+        return int(ms[-1][0]), int(ms[-1][1])
     m = re.search(r"The number of states generated: (\d+)", out)
     if m:
         return int(m.group(1)), int(m.group(1))
